@@ -58,8 +58,14 @@ struct Conn {
     probes: Vec<(u64, Space)>,
     closed: bool,
     confirmed: bool,
-    consecutive_ptos: u32,
-    last_pto_instant: Option<u64>,
+    /// probe-mode packets since the last ACK was received, the anchor T0 of that chain and
+    /// whether its first packet may be a left-over allowance (see clause (d))
+    chain_n: u32,
+    chain_t0: u64,
+    chain_stale: u32,
+    /// probe-mode packets since the recovery metrics last showed pto_count going up
+    probes_since_expiry_marker: u32,
+    last_pto_count: u32,
     /// times of the last two distinct instants at which an ack-eliciting 1-RTT packet was sent
     last_ae_tx: u64,
     prev_ae_tx: u64,
@@ -179,41 +185,55 @@ impl Monitor for C09 {
                 if *probe {
                     c.probes.push((t, *space));
                     cx.feature("pto_probe");
-                    // (d) PTO back-off: the k-th consecutive expiry without any ACK in between
-                    // must not come earlier than (srtt + max(4 rttvar, 1 ms)) * 2^k after the
-                    // last ack-eliciting transmission (max_ack_delay left out: lenient)
-                    if *space == Space::App && c.confirmed && c.last_pto_instant != Some(t) {
-                        let base = if c.last_ae_tx == t { c.prev_ae_tx } else { c.last_ae_tx };
-                        let k = c.consecutive_ptos.min(8);
-                        if let (Some(m), true) = (c.metrics.values().next(), base > 0 && base < t) {
+                    // (d) PTO back-off. What can be observed are packets sent in probe mode.
+                    // One expiry allows two of them (RFC 9002 6.2.4) and the implementation may
+                    // send the second one much later (pacing; the allowance even survives an
+                    // ACK and then marks the next ordinary packet). So, for the N-th probe-mode
+                    // packet since the last ACK was received, at least E = ceil((N - stale)/2)
+                    // expiries happened in between without any acknowledgement, the first not
+                    // before T0 + p and each one at least twice the previous period after the
+                    // one before: the packet cannot leave before T0 + (2^E - 1) * p, where T0
+                    // is the last ack-eliciting transmission before the chain began and
+                    // p = srtt + max(4 rttvar, 1 ms) (max_ack_delay left out: lenient; the RTT
+                    // estimate cannot change without an ACK).
+                    if *space == Space::App && c.confirmed {
+                        if c.chain_n == 0 {
+                            c.chain_t0 = if c.last_ae_tx == t { c.prev_ae_tx } else { c.last_ae_tx };
+                            // an allowance left over from before the ACK?
+                            c.chain_stale = u32::from(c.probes_since_expiry_marker < 2);
+                        }
+                        c.chain_n += 1;
+                        c.probes_since_expiry_marker += 1;
+                        let n_eff = c.chain_n.saturating_sub(c.chain_stale);
+                        let e = (n_eff + 1) / 2;
+                        if let (Some(m), true) = (c.metrics.values().next(), c.chain_t0 > 0 && c.chain_t0 < t && e >= 1) {
                             let p = m.smoothed_rtt + (4 * m.rtt_variance).max(GRANULARITY_US);
-                            let expected = p << k;
-                            let got = t - base;
-                            cx.summary.count("c09.pto_expiries_timed", 1);
-                            if k >= 1 {
+                            let expected = p.saturating_mul((1u64 << e.min(20)) - 1);
+                            let got = t - c.chain_t0;
+                            cx.summary.count("c09.pto_probe_packets_timed", 1);
+                            cx.summary.max("c09.max_consecutive_ptos", e as i64);
+                            if e >= 2 {
                                 cx.summary.count("c09.pto_backoff_steps_checked", 1);
-                                cx.summary.max("c09.max_consecutive_ptos", (k + 1) as i64);
                             }
-                            if got + GRANULARITY_US < expected && c.metrics.len() == 1 {
+                            // timers fire up to one granularity early, once per expiry
+                            if got + e as u64 * GRANULARITY_US < expected && c.metrics.len() == 1 {
                                 cx.violate(
                                     "C09",
                                     "pto-fired-early",
                                     format!(
-                                        "ep{ep} c{conn}: probe timeout #{} in a row fired {got}us after the last ack-eliciting packet; with srtt {}us, rttvar {}us the period must be at least {expected}us (doubling per consecutive expiry)",
-                                        k + 1, m.smoothed_rtt, m.rtt_variance
+                                        "ep{ep} c{conn}: probe-mode packet #{} since the last ACK (at least {e} consecutive probe timeouts) left {got}us after the last ack-eliciting packet before the chain; with srtt {}us, rttvar {}us that takes at least {expected}us (period doubling per consecutive expiry)",
+                                        c.chain_n, m.smoothed_rtt, m.rtt_variance
                                     ),
-                                    json!({"ep": ep, "conn": conn, "k": k, "interval_us": got, "expected_us": expected, "metrics": format!("{m:?}")}),
+                                    json!({"ep": ep, "conn": conn, "n": c.chain_n, "stale": c.chain_stale, "expiries": e, "interval_us": got, "expected_us": expected, "metrics": format!("{m:?}")}),
                                 );
                             }
                         }
-                        c.consecutive_ptos += 1;
-                        c.last_pto_instant = Some(t);
                     }
                 }
             }
             Evt::AckRange { space, lo, hi, .. } => {
                 // any acknowledgement may reset the back-off
-                c.consecutive_ptos = 0;
+                c.chain_n = 0;
                 let s = &mut c.spaces[space.idx()];
                 for (pn, st) in s.sent.range_mut(*lo..=*hi) {
                     match st.res {
@@ -281,6 +301,12 @@ impl Monitor for C09 {
                 }
             }
             Evt::Metrics(m) => {
+                if m.pto_count > c.last_pto_count {
+                    // a probe timeout expired (the back-off went up): new allowance of two
+                    c.probes_since_expiry_marker = 0;
+                    cx.summary.count("c09.pto_expiries_seen", 1);
+                }
+                c.last_pto_count = m.pto_count;
                 // (d) RTT sanity
                 let first = !c.metrics.contains_key(&m.path_id);
                 let initial = self.initial_rtt_us.get(ep).copied().unwrap_or(333_000);
